@@ -351,6 +351,40 @@ def rule_retractall_once(em, rep, rid):
             rep.violation(rid, key, 'after removing the matching facts retractall does not succeed exactly once (returns %s)' % norm(r.ast), f.loc(r.stmt))
 
 
+def rule_retractall_filters_by_match(em, rep, rid):
+    rep.rule(rid, 'every list retractall publishes is built by testing each stored clause against the pattern with match(): a '
+                  'local that starts empty and is only appended to inside the loop over the stored clauses that also runs the match')
+    f = em.repo.lookup_method(em.YP, 'retractall')
+    sm = StoreModel(em)
+    pubs = sm.publish_calls(f)
+    rep.minimum('publish sites in retractall', len(pubs), 1)
+    for c, a in pubs:
+        key = '%s:%s' % (f.qname, norm(c))
+        ok = False
+        why = 'the published list is %s' % (norm(a) if a is not None else None)
+        if isinstance(a, ast.Name):
+            name = a.id
+            inits = [s for s in own_nodes_ordered(f.node) if isinstance(s, ast.Assign) and any(is_name(t, name) for t in s.targets)]
+            apps = [x for x in own_nodes_ordered(f.node) if isinstance(x, ast.Call) and isinstance(x.func, ast.Attribute) and
+                    is_name(x.func.value, name) and x.func.attr == 'append']
+            others = [m for m in inplace_mutations(f, name) if m not in apps]
+            loops = [s for s in own_nodes_ordered(f.node) if isinstance(s, ast.For) and
+                     (sm.is_reader_call(f, s.iter) or (isinstance(s.iter, ast.Name) and s.iter.id in sm.alias_locals(f, {})))]
+            in_loop = all(any(ap is x for l in loops for x in ast.walk(l)) for ap in apps)
+            matches = any(isinstance(x, ast.Call) and em.is_binder_call(f, x) for l in loops for x in ast.walk(l))
+            if len(inits) == 1 and isinstance(inits[0].value, ast.List) and not inits[0].value.elts and apps and not others and in_loop and matches:
+                ok = True
+            else:
+                why = 'the published list %s is not only filled clause by clause inside the matching loop' % name
+        elif isinstance(a, (ast.ListComp,)) and any('match(' in norm(i) for g in a.generators for i in g.ifs):
+            ok = True
+        if ok:
+            rep.ok(rid, key, 'published list = clauses that did not match', f.loc(c))
+        else:
+            rep.violation(rid, key, 'retractall removes facts without unifying them with the pattern (%s): a pattern whose variables are '
+                          'aliased, e.g. edge(X, X), removes facts it does not match' % why, f.loc(c))
+
+
 def fields_assigned(em, f, depth=3, _seen=None):
     """self.<field> names (re)bound by f or its self.* callees"""
     _seen = _seen if _seen is not None else set()
@@ -887,12 +921,8 @@ def _source_reads(em, sm, f, a, depth=0):
                             if n.kind == 'store' and n.stmt is s:
                                 out.add(n)
                     else:
-                        sub = _source_reads(em, sm, f, s.value, depth + 1)
-                        if sub:
-                            # the assignment itself is the point where the fresh read becomes the local
-                            for n in cfg.nodes:
-                                if n.kind == 'store' and n.stmt is s:
-                                    out.add(n)
+                        # a value derived from other locals is as fresh as the reads those locals came from
+                        out |= _source_reads(em, sm, f, s.value, depth + 1)
                 if isinstance(s, ast.For) and any(is_name(t, x.id) for t in ast.walk(s.target)):
                     pass
     return out
